@@ -6,25 +6,25 @@ sys.path.insert(0, V)
 props = [json.loads(l) for l in open(os.path.join(V, "properties.jsonl"))]
 
 TECH = {
- "C01": "string-language inclusion on automata built from the encoder's quoting predicates and the decoder's classifiers; isinstance-dispatch order; taint of quoted text to textwrap",
- "C02": "string-language intersection (bare-written strings vs the permissive reader's classes); regex first-character sets of the whole-document rewrite; table inclusion",
- "C03": "grammar table consistency (derived keyword tables, reserved characters, lexer/decoder regex language inclusion); permissive-delegation language check",
- "C04": "token-protocol abstract interpretation (skip-before-read on all paths) + comment-table/lexer agreement",
- "C05": "token-stream protocol abstract interpretation of the recursive-descent parser (push-back, LexerError pass-through, fall-through) on all paths",
- "C06": "exception-propagation and loop-progress analysis on the token-protocol abstract interpreter, enumerated may-raise sources",
- "C08": "who-may-construct + def-use of the line number + MRO resolution of the hooks + regex syntax-tree check of the whole-document rewrite",
- "C09": "token-protocol abstract interpretation (nothing pulled after END) + argument-forwarding and laziness checks on the entry points",
+ "C01": "string-language inclusion on automata built from the encoder's quoting predicates and the decoder's classifiers; language model of the lexer's end-of-lexeme decision vs the number/time texts the encoders write; isinstance-dispatch order; flow-sensitive taint of quoted text to textwrap",
+ "C02": "string-language intersection (bare-written strings vs the permissive reader's classes); regex first-character sets of the whole-document rewrite; table inclusion; lexer end-of-lexeme language model for written numbers and times",
+ "C03": "grammar table consistency (derived keyword tables, reserved characters, lexer/decoder regex language inclusion); permissive-delegation language check; language model of the lexer's end-of-lexeme decision; guard/return analysis of aggregation_cls; path conditions of Token.__init__",
+ "C04": "token-protocol abstract interpretation (skip-before-read on all paths) + comment-table/lexer agreement + language equality of Token.is_comment/is_space with the grammar tables + path conditions of Token.__init__",
+ "C05": "token-stream protocol abstract interpretation of the recursive-descent parser (push-back, LexerError pass-through, fall-through) on all paths; language equality of the silently skipped token classes; exception-lattice check of QuantityError against the parser's handlers",
+ "C06": "exception-propagation and loop-progress analysis on the token-protocol abstract interpreter, enumerated may-raise sources; who-may-attach-a-token rule for ParseError",
+ "C08": "who-may-construct + def-use of the line number + MRO resolution of the hooks + regex syntax-tree check of the whole-document rewrite + sibling agreement of the repair hook with parse_assignment_statement (production call sequence)",
+ "C09": "token-protocol abstract interpretation (nothing pulled after END) + argument-forwarding and laziness checks on the entry points + taint of the saved stream position to seek()",
  "C10": "method-resolution provider table (MRO incl. dict/abc mix-ins) + paired-write path effects of every mutator + view interface check",
- "C11": "reduction-protocol rule for dict subclasses with split representation + fresh-list/no-alias check",
+ "C11": "reduction-protocol rule for dict subclasses with split representation + fresh-list/no-alias check + no back-reference in instance state carried by the reduction",
  "C12": "structural checks of the encoder (fixed PDS3 configuration, delimiter control dependence, keyword pairing, guards dominating emission, character sweep) + taint to textwrap",
- "C13": "parameter-mutation effect analysis of encoder methods + effect summary of OrderedMultiDict.__setitem__ + instance-state writes",
- "C14": "default-zone/leap-second/format tables; field-consumption, sign-alphabet and fraction-padding rules on the encode_time implementations; writer/reader time-language inclusion",
+ "C13": "parameter-mutation effect analysis of encoder methods (helpers attributed to their entry point) + effect summary of OrderedMultiDict.__setitem__ + paired-write effects of the container mutators + instance-state writes",
+ "C14": "default-zone/leap-second/format tables; field-consumption, sign-alphabet and fraction-padding rules on the encode_time implementations (canonical form); path conditions of every return of the PDS3 time writer; writer/reader time-language inclusion; lexer end-of-lexeme language model for date/times",
  "C15": "interval abstract interpretation of char_allowed over all code points; dominance of the character check in the lexer; def-use/linear-form check of error positions",
  "C16": "instance-state effect analysis (attributes written on per-call paths must be reset in the entry point); shared-state write scan",
  "C17": "delegation check of token predicates + language equivalence of Token.is_unquoted_string and the decoder's unquoted-string class; bare-string inclusion",
- "C18": "who-constructs check (only real_cls/quantity_cls/modcls/grpcls/objcls on value paths) + isinstance(float) scan on decoded values",
- "C19": "sibling diff of pvl.new against pvl (normalised AST) + container-family discrimination of isinstance tests + member provision table",
- "C20": "dispatch-table consistency (formats, dialects) + forwarding chain + verdict-flag placement and handler analysis in pvl_flavor",
+ "C18": "who-constructs check (only real_cls/quantity_cls/modcls/grpcls/objcls on value paths) + isinstance(float) scan on decoded values + guard/return analysis of aggregation_cls + exception-lattice check of QuantityError",
+ "C19": "sibling diff of pvl.new against pvl (normalised AST) + container-family discrimination of isinstance tests + member provision table + documented list semantics of the default container family (structural)",
+ "C20": "dispatch-table consistency (formats, dialects) + forwarding chain (canonical form) + verdict-flag placement and handler analysis in pvl_flavor + per-file freshness of the results mapping",
 }
 NA = {"C07": "every clause compares run-time values (idempotence of folding regexes as transducers, byte identity of a second dump); the only static necessary condition -- a bare-written string must not re-read as another type -- is rule S1, claimed under C01/C02/C17, not twice"}
 
@@ -65,7 +65,7 @@ m = {
            "baseline_off_cmd": "cd /repo && /venv/bin/python -m pytest -ra -q -p no:cacheprovider --timeout=900 --continue-on-collection-errors",
            "source_commits": [], "add_only": True},
  "engines": [{"name": "vsa", "path": "vsa/", "serves_properties": [c["property_id"] for c in checks],
-              "kind_free_text": "purpose-built static analyser (ast): token-protocol abstract interpreter, string-language automata, interval interpreter, effect and table rules"}],
+              "kind_free_text": "purpose-built static analyser (ast): token-protocol abstract interpreter, string-language automata with a partial evaluator of the predicates, lexer language model, interval interpreter, flow-sensitive taint / path-condition walker, thin-helper inlining and canonical form, effect and table rules"}],
  "checks": checks,
  "not_applicable": na,
  "notes": "Exit codes: 0 held (KNOWN-FINDING lines for recorded defects), 1 VIOLATION, 2 ANALYSIS-ERROR (anchor vanished / unknown syntax / instance floor missed). VSA_REPO overrides the analysed tree (self-tests on scratch copies only).",
